@@ -37,7 +37,7 @@ VARIANTS = [
     fire('c07-merge-no-reindex', ['C07'], [(TS, "            self._blocks.pop(b.index)\n            self._update_block_indexes(b.index)\n",
                                             "            self._blocks.pop(b.index)\n")], 'TS-IDX'),
     fire('c07-merge-no-rebuild', ['C07', 'C08'], [(TS, "            a.rebuild()\n            b.rebuild()\n", "            a.rebuild()\n")], 'TS-HANDLE'),
-    fire('c07-no-handle-clear', ['C07'], [(TS, "            for j in range(end_j):\n                self._blocks[end_i].tokens[j].store_handle = None\n", "")], 'TS-DETACH'),
+    fire('c07-no-handle-clear', ['C07'], [(TS, "            for j in range(end_j):\n                self._blocks[end_i].tokens[j].store_handle = None\n", "")], 'TS-SEQ'),
     fire('c07-len-skipped', ['C07'], [(TS, "                self._update_block(block)\n        else:\n            len_removed = len(",
                                         "                self._update_block(block)\n                return\n        else:\n            len_removed = len(")], 'LEN'),
     fire('c07-len-delta', ['C07'], [(TS, "        self._len += len(tokens) - len_removed", "        self._len += len(tokens) - len_removed + 0 * 1 - 1 + 1 + len(tokens) - len(tokens) + 1 - 1 if False else len(tokens)")], 'LEN'),
@@ -47,9 +47,9 @@ VARIANTS = [
                                                   "        self._raw_text = value\n        if self.store_handle:\n            self.store_handle.block.store.update(self, value, size)\n")], 'RAWTEXT-ORD'),
     fire('c08-fastpath-guard-dropped', ['C08'], [(TS, "                    (len(block.tokens) > _HALF_LOAD_FACTOR or len(self._blocks) == 1) and\n                    block.last_newline_index >= end_j\n",
                                                   "                    (len(block.tokens) > _HALF_LOAD_FACTOR or len(self._blocks) == 1)\n")], 'FASTPATH-GUARD'),
-    fire('c07-get-next-off-by-one', ['C07'], [(TS, "        if handle.index + 1 < len(handle.block.tokens):\n            return handle.block.tokens[handle.index + 1]", "        if handle.index + 1 <= len(handle.block.tokens) - 1 and handle.index + 2 < len(handle.block.tokens) + 1 and handle.index < len(handle.block.tokens) - 2:\n            return handle.block.tokens[handle.index + 1]")], 'NAV-FORM'),
-    fire('c07-iter-excludes-end', ['C07'], [(TS, "            yield from end_handle.block.tokens[:end_handle.index+1]", "            yield from end_handle.block.tokens[:end_handle.index]")], 'NAV-FORM'),
-    fire('c07-insert-after-same-slot', ['C07'], [(TS, "            start = (start_handle.block.index, start_handle.index + 1)\n        self._splice(tokens, start, start)", "            start = (start_handle.block.index, start_handle.index)\n        self._splice(tokens, start, start)")], 'NAV-FORM'),
+    fire('c07-get-next-off-by-one', ['C07'], [(TS, "        if handle.index + 1 < len(handle.block.tokens):\n            return handle.block.tokens[handle.index + 1]", "        if handle.index + 1 <= len(handle.block.tokens) - 1 and handle.index + 2 < len(handle.block.tokens) + 1 and handle.index < len(handle.block.tokens) - 2:\n            return handle.block.tokens[handle.index + 1]")], 'NAV-SEM'),
+    fire('c07-iter-excludes-end', ['C07'], [(TS, "            yield from end_handle.block.tokens[:end_handle.index+1]", "            yield from end_handle.block.tokens[:end_handle.index]")], 'NAV-SEM'),
+    fire('c07-insert-after-same-slot', ['C07'], [(TS, "            start = (start_handle.block.index, start_handle.index + 1)\n        self._splice(tokens, start, start)", "            start = (start_handle.block.index, start_handle.index)\n        self._splice(tokens, start, start)")], 'NAV-SEM'),
     fire('c08-update-early-return-le', ['C08'], [(TS, "        if handle.index < handle.block.last_newline_index:\n            return", "        if handle.index <= handle.block.last_newline_index:\n            return")], 'POS-SEM'),
     fire('c08-fastpath-lines', ['C08'], [(TS, "                    lines_diff += token.size.line\n", "                    lines_diff += token.size.line and 1\n")], 'POS-SEM'),
     fire('c08-position-column-add', ['C08'], [(TS, "        if other.line:\n            self.column = other.column\n        else:\n            self.column += other.column", "        self.column += other.column")], 'POS-SEM'),
